@@ -1,6 +1,7 @@
+\* thorough: every century year 100..9900 and the years around every millennium
 SPECIFICATION Spec
 CONSTANTS
-  StartYears = {1, 4, 100, 400, 1582, 1600, 1900, 2100, 3999, 4000, 8000, 9999}
+  StartYears <- CenturyYears
   SpanYears = 1
   Emit = TRUE
 INVARIANTS TypeOK DoyDef DoyOneIffNewYear DoyLastIffNYE
